@@ -10,8 +10,8 @@ def build(ctx):
     ctx.log("translate", out)
     if not ok:
         ctx.diag.append("translator failed: " + out[-300:])
-    C.prove(ctx, ["Props/C07.v", "Props/C07File.v", "Props/C07Full.v"],
-            ["Oblig/C07Obl.v", "Model/JsonCodecFacts.v", "Oblig/C07FileObl.v", "Model/JsonSurvive.v", "Model/JsonFileFacts.v",
+    C.prove(ctx, ["Props/C07.v", "Props/C07File.v", "Props/C07Full.v", "Props/C07FullADV.v"],
+            ["Oblig/C07FullADVObl.v", "Model/JsonFullADVFacts.v", "Oblig/C07Obl.v", "Model/JsonCodecFacts.v", "Oblig/C07FileObl.v", "Model/JsonSurvive.v", "Model/JsonFileFacts.v",
              "Model/JsonPostTable.v", "Model/JsonDefaultsTable.v", "Model/JsonFullFacts.v", "Model/JsonKeepFacts.v", "Oblig/C07FullObl.v"])
     ok, out = C.build_harness()
     ctx.log("go build", out)
@@ -30,7 +30,47 @@ def build(ctx):
     ctx.log("ocaml c07full", out[-3000:])
     if not ok:
         ctx.diag.append("extracted full file-level model does not build: " + out[-600:])
+    ok, out = C.build_ocaml("c07adv")
+    ctx.log("ocaml c07adv", out[-3000:])
+    if not ok:
+        ctx.diag.append("extracted ADV file-level model does not build: " + out[-600:])
     return True
+
+
+def adv_corr(ctx, n):
+    """Phase 7: ADV documents only (forward and returned advices, ADV files valid only under stored options, damaged
+    tabulations, an ADV file control hash of eleven digits): writer on full trees, the prediction of C07_roundtrip_adv
+    under its explicit hypotheses, from_json, File.UnmarshalJSON."""
+    import json
+    d = os.path.join(ctx.rundir, "adv")
+    os.makedirs(d, exist_ok=True)
+    drv = os.path.join(C.BUILD, "ocaml", "c07adv", "driver")
+    if not os.path.exists(drv):
+        ctx.diag.append("ADV file-level correspondence could not run: no driver")
+        return
+    rc, out = C.sh([os.path.join(C.BIN, "c07"), "adv", "-out", d, "-n", str(n)], timeout=3000)
+    ctx.log("adv", out[-1500:])
+    if rc != 0:
+        ctx.diag.append("ADV file-level correspondence could not run: " + out[-300:])
+        return
+    rc2, out2 = C.sh("%s %s %s > %s" % (drv, os.path.join(d, "cases.txt"), os.path.join(d, "hyps.json"), os.path.join(d, "model.txt")), timeout=3000)
+    if rc2 != 0:
+        ctx.diag.append("extracted ADV file-level model crashed: " + out2[-300:])
+    ctx.compare("ADV documents (writer, C07_roundtrip_adv prediction, from_json, File.UnmarshalJSON)",
+                os.path.join(d, "model.txt"), os.path.join(d, "impl.txt"), os.path.join(d, "cases.txt"))
+    try:
+        hy = json.load(open(os.path.join(d, "hyps.json")))
+        ctx.cov["adv_roundtrip"] = {"generator": json.load(open(os.path.join(d, "stats.json"))), "roundtrip_adv_theorem": hy}
+        files, hold = hy.get("adv_files", {}), hy.get("explicit_hypotheses_hold", {})
+        if files.get("all", 0) < min(300, n - n // 10):
+            ctx.diag.append("ADV correspondence: only %d ADV files were generated" % files.get("all", 0))
+        for cls in ("all", "returned-advices", "needs-stored-options"):
+            if hold.get(cls, 0) == 0:
+                ctx.diag.append("no generated ADV file of class '%s' satisfies the hypotheses of C07_roundtrip_adv (vacuous)" % cls)
+        if hold.get("damaged-tabulation", 0) != 0:
+            ctx.diag.append("a file with a damaged tabulation satisfies the hypotheses of C07_roundtrip_adv")
+    except (OSError, ValueError) as ex:
+        ctx.diag.append("ADV file-level statistics missing: %s" % ex)
 
 
 def achcli_bin(ctx):
@@ -156,12 +196,14 @@ def search(ctx, factor):
 
 def run(ctx):
     ctx.search = search
-    ctx.trusted += ["jsondefaults analysis of the translator (New... constructor literals incl. the new(T)/var shape, File.SetValidation / FileHeader.SetValidation statements, the header wrapper literal of FileFromJSONWith, option reads of the FileHeader accessors, File.Create's header check, assignments to unexported FileHeader fields, exits of achcli's readValidationOpts and the call chain to FileFromJSONWith; syntactic)",
+    ctx.trusted += ["jsonadv analysis of the translator (statements of the ADV branch of Batch.build, calculateADVBatchAmounts, createFileADV, the ADV branches of FileFromJSONWith, setADVEntryRecordType, File.IsADV, the ADV steps of setBatchesFromJSON, File.UnmarshalJSON, printed and compared with the table the model transcribes; syntactic)",
+                    "jsondefaults analysis of the translator (New... constructor literals incl. the new(T)/var shape, File.SetValidation / FileHeader.SetValidation statements, the header wrapper literal of FileFromJSONWith, option reads of the FileHeader accessors, File.Create's header check, assignments to unexported FileHeader fields, exits of achcli's readValidationOpts and the call chain to FileFromJSONWith; syntactic)",
                     "jsonpost analysis of the translator (switches of ConvertBatchType/NewBatch, type-code literals, call order in setBatchesFromJSON and FileFromJSONWith, datetimeformats, overwriteDateTimeFields; syntactic)",
                     "jsontags analysis of the translator (struct tags, aux structs of the JSON methods, decode wrappers of file.go, constructor literals; syntactic)",
                     "encoding/json: text <-> tree, case-insensitive key matching, omitempty, decoding into existing values (modelled by enc/dec, validated by the correspondence run)"]
     ctx.assumptions += ["strings are valid UTF-8 (json.Marshal replaces invalid bytes); JSON objects carry no duplicate keys",
                         "C07_roundtrip (Props/C07Full.v): write, file options, header options and offsets survive FileFromJSON(Marshal(v)) for every typed File value (ADV included) that is in the domain (options stored through File.SetValidation, priorityCode the package's literal, timestamps in NACHA form), valid (regenerated FileHeader rules, batch headers present, addenda type codes, Create's preconditions), tabulated (build / Create / createFileADV are the identity) and json-safe (no Addenda98.iatCorrectedData; the CTX/ATX name heuristic does not fire) -- json-safe is exactly the known findings, each with a _refuted witness; the kept excused fields (header constants, FileIDModifier) are derived from validity (C07_keep_from_valid)",
+                        "C07_roundtrip_adv (Props/C07FullADV.v): the ADV case of C07_roundtrip with 'tabulated' replaced by explicit conditions on the records (sequence numbers 1..n, no Offset, the stored ADVBatchControl is the one the ADV branch of build assembles, batch numbering and ADVFileControl as createFileADV computes them); each condition has a _refuted witness; Batch.build is proved idempotent on ADV batches (C07_adv_build_idempotent); the category condition of 'valid' is sufficient but not necessary for the text (C07_adv_category_text_only); not modelled: ErrFileADVOnly for an ADV file that also holds IAT batches (excluded by the hypotheses)",
                         "PARTIAL (phase 2 statement, kept): C07_roundtrip_partial (write (from_json (to_json v)) = write v) is proved for file values whose tree is 'ready' (not ADV, addenda type codes present, CTX/ATX counts set, build under the file's options is the identity on every batch, timestamps shorter than 19 bytes, batch numbers and file control as Create computes them) and whose kept excused fields hold their decode-time values; FileHeader.Validate / BatchHeader.Validate / File.Validate are abstract predicates; ADV files, the reader (text -> file) and option-dependent renderings of the file header are covered by correspondence and oracle only",
                         "post-processing model: nil elements of JSON arrays, the key advFileControl in a hand-written document, Unicode case folding of the OFFSET name are not modelled",
                         "the excused fields of Oblig/C07Obl.v (unexported option pointers, ids, categories, Batch.ADVControl, File.ADVControl, NotificationOfChange/ReturnEntries, FileHeader constants) are restored or recomputed by the decoder's post-processing or are not rendered (docs/C07.md)"]
@@ -182,13 +224,14 @@ def run(ctx):
         ctx.diag.append("correspondence could not run: " + out[-300:])
     post_corr(ctx, ctx.scale(250, 4000))
     full_corr(ctx, ctx.scale(540, 6000), ctx.scale(36, 240))
+    adv_corr(ctx, ctx.scale(340, 3000))
     summ = oracle(ctx, ctx.scale(1500, 20000))
     ctx.add_summary(summ, "JSON round trip oracle")
     optsdom.run(ctx, "C07")
     s2 = cli(ctx, ctx.scale(30, 240))
     ctx.add_summary(s2, "achcli -reformat")
     if ctx.tier == "thorough":
-        ctx.cov["forbidden_vernacular"] = [x for x in C.forbidden_vernacular() if "JsonCodec" in x or "C07" in x or "JsonTags" in x or "JsonFile" in x or "JsonSurvive" in x or "JsonPost" in x or "JsonFull" in x or "JsonDefaults" in x or "JsonKeep" in x]
+        ctx.cov["forbidden_vernacular"] = [x for x in C.forbidden_vernacular() if "JsonCodec" in x or "C07" in x or "JsonTags" in x or "JsonFile" in x or "JsonSurvive" in x or "JsonPost" in x or "JsonFull" in x or "JsonDefaults" in x or "JsonKeep" in x or "JsonADV" in x]
 
 
 def replay(path):
